@@ -215,7 +215,12 @@ pub fn execute(p: &P, seed: u64) -> RunOut {
             });
             if integrated {
                 waiting_for_integration = false;
-                out.stats.max("c02_f1_integration_permille_of_bound", (w.now - last_announce) * 1000 / ((2 * joined as u64 + 1) * period));
+                if p.feeds_whole_cluster {
+                    out.stats.max("c02_f1_integration_permille_of_bound", (w.now - last_announce) * 1000 / ((2 * joined as u64 + 1) * period));
+                }
+                if p.feeds_whole_cluster && std::env::var_os("VERIF_DEBUG_C02").is_some() && (w.now - last_announce) * 1000 / ((2 * joined as u64 + 1) * period) > 800 {
+                    eprintln!("slow F1 integration: seed={seed} joined={joined} took={}ms period={}ms", (w.now - last_announce) / MS, period / MS);
+                }
                 if (w.now - last_announce) > (2 * joined as u64 + 1) * period && p.feeds_whole_cluster {
                     vs.push(Violation { property: "C02", tag: "C02/discovery-too-slow".into(), detail: format!("F1: joiner {} integrated after {} probe periods (bound {})", joined, (w.now - last_announce) / period, 2 * joined + 1), at: w.now });
                     break;
